@@ -400,3 +400,8 @@ impl ExpandSeed for Ciphertext {
         self
     }
 }
+
+// Verification hook (add-only): compiled only under `cargo kani` or `--cfg heathcliff_verif`.
+#[cfg(any(kani, heathcliff_verif))]
+#[path = "/verif/incrate/text_v.rs"]
+pub(crate) mod verif_v;
